@@ -793,6 +793,15 @@ class GroupBy:
         self, mask: Union[None, slice, np.ndarray]
     ) -> Tuple[Union[np.ndarray, pa.ChunkedArray], int, List]:
         """ """
+        if (
+            self.key_is_chunked
+            and mask is not None
+            and not isinstance(mask, slice)
+            and not pd.api.types.is_bool_dtype(mask)
+        ):
+            # positions can repeat and their order matters (first/last), which a split
+            # into per-chunk boolean masks cannot express
+            self._unify_group_key_chunks()
         group_key = self.group_ikey
         first_chunk_in = 0
         mask_chunks = [None] * len(self._group_key_lengths)
